@@ -324,6 +324,31 @@ def serveStack (fr : FReq) : List Layer → FObs
     let o := l.run fr
     if o.core.ran then mergeObs o (serveStack fr rest) else o
 
+/-! ## the state of the shared response when the first instance is entered (round 7)
+
+A middleware registered earlier may have put CORS-looking headers into the response (a proxy
+layer, a second library) or may already have STARTED it (`WriteHeader` / `Write` / `Flush`) before
+calling `next`.  The middleware does not look at any of that: the decision is the same.  What the
+client sees: headers present at entry stay unless an instance overwrites them; once the response
+is started, the status on the wire and the headers sent with it are final — whatever the instances
+set afterwards is not sent. -/
+
+structure Entry where
+  committed : Option Nat      -- status already written (`none`: response not started)
+  acao : Option Str           -- Access-Control-Allow-Origin already in the response
+  acac : Bool                 -- Access-Control-Allow-Credentials already there
+  vary : List Str             -- Vary values already there
+deriving DecidableEq, Repr, Inhabited
+
+def entryObs (en : Entry) : FObs := noHeaders ⟨200, true, en.acao, en.acac, en.vary⟩ none
+
+/-- what the client sees of one request through the stack, given the response state at entry -/
+def serveEntry (en : Entry) (fr : FReq) (ls : List Layer) : FObs :=
+  let o := serveStack fr ls
+  match en.committed with
+  | some st => noHeaders ⟨st, o.core.ran, en.acao, en.acac, en.vary⟩ none
+  | none => mergeObs (entryObs en) o
+
 /-! ## wire -/
 open Wire
 
@@ -380,15 +405,24 @@ def pPair : P (Str × Str) := do
   let b ← str
   pure (a, b)
 
-/-- line: `method nHeaders (name value)* nLayers layer*` (layers outermost first, at least one)
+def pEntry : P Entry := do
+  let c ← nat
+  let acao ← opt str
+  let acac ← bool
+  let vary ← list str
+  pure ⟨if c = 0 then none else some c, acao, acac, vary⟩
+
+/-- line: `committed (0 | 1 acao) acac nVary vary*` (response state at entry; committed 0 = not started), then
+    `method nHeaders (name value)* nLayers layer*` (layers outermost first, at least one)
     →  `status ran (0 | 1 acao) acac k vary* (0|1 allow) (0|1 acam) (0|1 acah) (0|1 aceh) (0|1 maxage)` -/
 def runLine (line : String) : String :=
   match parseLine (do
+      let en ← pEntry
       let method ← str
       let headers ← list pPair
       let layers ← list pLayer
-      pure (reqOf method headers, layers)) line with
+      pure (en, reqOf method headers, layers)) line with
   | none => "bad-op"
-  | some (fr, layers) => encFObs (serveStack fr layers)
+  | some (en, fr, layers) => encFObs (serveEntry en fr layers)
 
 end C11
